@@ -134,6 +134,21 @@ Section JoinerProofs.
           /\ 0 < len (k_data last) <= Bsz m'
     end.
 
+  Lemma Repr_leaf_intro d : len d <= cs -> Repr 0 (len d) (of_list d) d.
+  Proof. intros Hl. cbn [Repr]. split; [reflexivity|]. split; [apply of_list_repr | exact Hl]. Qed.
+
+  Lemma Repr_node_intro m (front : list kid) (last : kid) :
+    (1 <= length front)%nat -> len (front ++ [last]) <= b ->
+    Forall (kid_ok (Repr m)) (front ++ [last]) ->
+    Forall (fun k => len (k_data k) = Bsz m) front -> 0 < len (k_data last) <= Bsz m ->
+    Repr (S m) (len (concat (map k_data (front ++ [last]))))
+         (of_list (concat (map k_ref (front ++ [last])))) (concat (map k_data (front ++ [last]))).
+  Proof.
+    intros H1 H2 H3 H4 H5. cbn [Repr]. right. exists front, last.
+    split; [reflexivity|]. split; [exact H1|]. split; [exact H2|]. split; [apply of_list_repr|].
+    split; [reflexivity|]. split; [exact H3|]. split; [exact H4 | exact H5].
+  Qed.
+
   Lemma Repr_span m : forall span v d, Repr m span v d -> span = len d.
   Proof.
     induction m as [|m IH]; intros span v d Hr; cbn [Repr] in Hr.
@@ -168,7 +183,7 @@ Section JoinerProofs.
   Proof.
     intros [Hvl Hvg] Ho Ht Hb0 Hbc. cbn [read_at_offset]. rewrite Hvl.
     replace (len d <=? len d) with true by (symmetry; apply Z.leb_le; lia).
-    replace (toRead >? len d - (off - cur)) with false by (symmetry; apply Z.gtb_ltb, Z.ltb_ge; lia).
+    replace (toRead >? len d - (off - cur)) with false by (symmetry; rewrite Z.gtb_ltb; apply Z.ltb_ge; lia).
     replace (off - cur <? 0) with false by (symmetry; apply Z.ltb_ge; lia).
     replace (off - cur + toRead <? off - cur) with false by (symmetry; apply Z.ltb_ge; lia).
     replace (len d <? off - cur + toRead) with false by (symmetry; apply Z.ltb_ge; lia).
@@ -269,8 +284,8 @@ Section JoinerProofs.
         replace (len done * refLen <=? len done * refLen) with true by (symmetry; apply Z.leb_le; lia).
         assert (toRead = 0) by lia. subst toRead. exists []. split; reflexivity.
       - assert (Hlt : len done < r) by (unfold r; rewrite Hsplit, app_length; cbn [length]; lia).
-        rewrite vlen_eq at 1.
-        replace (r * refLen <=? len done * refLen) with false by (symmetry; apply Z.leb_gt; nia).
+        pose proof vlen_eq as Hvl.
+        replace (v_len v <=? len done * refLen) with false by (symmetry; apply Z.leb_gt; rewrite Hvl; nia).
         destruct (toRead =? 0) eqn:Et.
         { apply Z.eqb_eq in Et. subst toRead. exists []. split; reflexivity. }
         apply Z.eqb_neq in Et.
@@ -294,16 +309,15 @@ Section JoinerProofs.
           exists ws. split; [exact Hl|].
           rewrite slice_app_skip by lia. rewrite <- Esec. replace (off - cur - sec) with (off - (cur + sec)) by lia. exact Htl.
         + apply Z.ltb_ge in Eskip.
-          rewrite vlen_eq.
-          replace (r * refLen <? len done * refLen + refLen) with false by (symmetry; apply Z.ltb_ge; nia).
+          replace (v_len v <? len done * refLen + refLen) with false by (symmetry; apply Z.ltb_ge; rewrite Hvl; nia).
           rewrite (ref_at done rest k Hsplit), Hkg.
-          replace (k_span k >? sec) with false by (symmetry; apply Z.gtb_ltb, Z.ltb_ge; lia).
+          replace (k_span k >? sec) with false by (symmetry; rewrite Z.gtb_ltb; apply Z.ltb_ge; lia).
           remember (if sec - (off - cur) >? toRead then toRead else sec - (off - cur)) as crs1 eqn:Ec1.
           assert (Hc1 : crs1 = Z.min (sec - (off - cur)) toRead).
           { subst crs1. destruct (sec - (off - cur) >? toRead) eqn:Eg.
             - apply Z.gtb_lt in Eg. lia.
             - rewrite Z.gtb_ltb in Eg. apply Z.ltb_ge in Eg. lia. }
-          replace (crs1 >? sec) with false by (symmetry; apply Z.gtb_ltb, Z.ltb_ge; lia).
+          replace (crs1 >? sec) with false by (symmetry; rewrite Z.gtb_ltb; apply Z.ltb_ge; lia).
           clear Ec1.
           destruct (Hrec (k_span k) (k_pay k) (k_data k) cur off boff crs1 Hkrep) as (ws1 & Hr1 & Ht1); try lia.
           rewrite Hr1. rewrite Hcur.
@@ -338,8 +352,8 @@ Section JoinerProofs.
           exists ws, read_at_offset get cs refLen fuel bcap v' cur' span' off' boff' toRead' = mkR ws toRead' []
                      /\ tiles boff' ws (slice d' (off' - cur') toRead')).
         { intros. apply (IH fuel); try assumption. lia. }
-        pose proof (size_eq m span front last Hfull Hsize) as Hse.
-        pose proof (vlen_eq v front last Hv Hkids) as Hvl.
+        pose proof (size_eq m fuel bcap v span front last Hfront Hfull Hsize Hrecur) as Hse.
+        pose proof (vlen_eq m v front last Hv Hkids) as Hvl.
         cbn [read_at_offset].
         (* not a leaf: the span exceeds the payload length *)
         assert (Hnl : (span <=? v_len v) = false).
@@ -348,10 +362,208 @@ Section JoinerProofs.
         rewrite Hnl.
         replace (refLen <=? 0) with false by (symmetry; apply Z.leb_gt; lia).
         rewrite Hvl, Z.div_mul by lia.
-        destruct (loop_ok m fuel bcap v span front last Hfront Hkb Hv Hkids Hfull Hlast Hsize H63 Hrecur
+        destruct (loop_ok m fuel bcap v span front last Hfront Hv Hkids Hfull Hlast Hsize H63 Hrecur
                     (front ++ [last]) [] (S (Z.to_nat (len (front ++ [last]) + 1))) cur off boff toRead)
           as (ws & Hl & Htl); try reflexivity; try lia.
-        { rewrite <- Hsize. lia. } { rewrite <- Hsize. lia. }
         cbn [length] in Hl. rewrite Z.mul_0_l in Hl. exists ws. split; [exact Hl|]. rewrite Hd. exact Htl.
+  Qed.
+
+  (** a stored tree below 2^63 bytes has fewer than 64 levels *)
+  Lemma node_span_gt m (front : list kid) (last : kid) :
+    (1 <= length front)%nat -> Forall (fun k => len (k_data k) = Bsz m) front -> 0 < len (k_data last) ->
+    Bsz m < len (concat (map k_data (front ++ [last]))).
+  Proof.
+    intros Hf Hfull Hl. rewrite map_app, concat_app, app_length, Nat2Z.inj_add, (len_front (Bsz m) front Hfull).
+    cbn [map concat]. rewrite app_nil_r. pose proof (Bsz_ge_cs m). pose proof Hcs. nia.
+  Qed.
+
+  Lemma Repr_bound m : forall span v d, Repr m span v d -> span < 2 ^ 63 -> Repr (Nat.min m 63) span v d.
+  Proof.
+    induction m as [|m IH]; intros span v d Hr H63; [exact Hr|].
+    cbn [Repr] in Hr. destruct Hr as [Hr | (front & last & Hs & Hfront & Hkb & Hv & Hd & Hkids & Hfull & Hlast)].
+    - specialize (IH _ _ _ Hr H63). destruct (Nat.le_gt_cases 63 m) as [Hm|Hm].
+      + rewrite Nat.min_r in IH by lia. rewrite Nat.min_r by lia. exact IH.
+      + rewrite Nat.min_l in IH by lia. rewrite Nat.min_l by lia. now apply Repr_mono.
+    - assert (Hm : (m < 63)%nat).
+      { apply Bsz_level_bound. pose proof (node_span_gt m front last Hfront Hfull ltac:(lia)) as Hgt.
+        rewrite <- Hd, <- Hs in Hgt. lia. }
+      rewrite Nat.min_l by lia. cbn [Repr]. right. exists front, last. tauto.
+  Qed.
+
+  (** ** ReadAt *)
+  Definition content (ws : list (Z * bytes)) : bytes := concat (map snd ws).
+
+  Lemma tiles_content ws : forall boff c, tiles boff ws c -> content ws = c.
+  Proof.
+    induction ws as [|[o bs] ws IH]; intros boff c Ht; cbn [tiles] in Ht.
+    - now subst c.
+    - destruct Ht as (_ & rest & -> & Ht). unfold content. cbn [map snd concat]. f_equal. exact (IH _ _ Ht).
+  Qed.
+
+  Section Stored.
+    Variables (j : joiner) (data : bytes) (m : nat).
+    Hypothesis Hrep : Repr m (j_span j) (j_root j) data.
+    Hypothesis H63 : j_span j < 2 ^ 63.
+
+    Lemma stored_size : j_span j = len data.
+    Proof. exact (Repr_span m _ _ _ Hrep). Qed.
+
+    Lemma read_at_spec blen bcap off : 0 <= off -> 0 <= blen <= bcap ->
+      if off >=? len data then read_at get cs refLen j blen bcap off = (0, [], REOF)
+      else exists ws, read_at get cs refLen j blen bcap off = (Z.min blen (len data - off), ws, RNil)
+                      /\ tiles 0 ws (slice data off (Z.min blen (len data - off))).
+    Proof.
+      intros Ho Hb'. unfold read_at. pose proof stored_size as Hsz.
+      assert (H63' : len data < 2 ^ 63) by (rewrite <- Hsz; exact H63).
+      rewrite Hsz.
+      destruct (off >=? len data) eqn:Eo; [reflexivity|].
+      rewrite Z.geb_leb in Eo. apply Z.leb_gt in Eo.
+      rewrite i64_small by lia.
+      assert (Hrl0 : (if blen >? len data - off then len data - off else blen) = Z.min blen (len data - off)).
+      { destruct (blen >? len data - off) eqn:Eg.
+        - apply Z.gtb_lt in Eg. lia.
+        - rewrite Z.gtb_ltb in Eg. apply Z.ltb_ge in Eg. lia. }
+      rewrite Hrl0.
+      pose proof (Repr_bound m _ _ _ Hrep H63) as Hrep'. rewrite Hsz in Hrep'.
+      destruct (read_ok bcap (Nat.min m 63) 64 ltac:(lia) (len data) (j_root j) data 0 off 0
+                        (Z.min blen (len data - off)) Hrep' H63') as (ws & Hr & Ht); try lia.
+      rewrite Hr. cbn [rd_errs rd_n rd_writes]. exists ws. split; [reflexivity|].
+      replace (off - 0) with off in Ht by lia. exact Ht.
+    Qed.
+
+    (** what the caller's buffer looks like afterwards *)
+    Lemma read_at_buffer blen bcap off buf : 0 <= off -> 0 <= blen <= bcap -> len buf = bcap ->
+      off < len data ->
+      exists ws, read_at get cs refLen j blen bcap off = (Z.min blen (len data - off), ws, RNil)
+        /\ apply_writes buf ws = slice data off (Z.min blen (len data - off))
+                                  ++ skipn (Z.to_nat (Z.min blen (len data - off))) buf.
+    Proof.
+      intros Ho Hb' Hbuf Hlt. pose proof (read_at_spec blen bcap off Ho Hb') as Hs.
+      replace (off >=? len data) with false in Hs by (symmetry; rewrite Z.geb_leb; apply Z.leb_gt; lia).
+      destruct Hs as (ws & Hr & Ht). exists ws. split; [exact Hr|].
+      assert (Hsl : len (slice data off (Z.min blen (len data - off))) = Z.min blen (len data - off))
+        by (apply slice_length; lia).
+      rewrite (apply_tiles ws 0 _ buf Ht) by lia. cbn [Z.to_nat firstn app]. rewrite Hsl. reflexivity.
+    Qed.
+
+    (** ** Read *)
+    Lemma read_spec blen bcap : 0 <= j_off j <= len data -> 0 <= blen <= bcap ->
+      if j_off j >=? len data
+      then read get cs refLen j blen bcap = (j, (0, [], REOF))
+      else exists ws, read get cs refLen j blen bcap =
+                        (mkJ (j_span j) (j_root j) (j_off j + Z.min blen (len data - j_off j)),
+                         (Z.min blen (len data - j_off j), ws, RNil))
+                      /\ tiles 0 ws (slice data (j_off j) (Z.min blen (len data - j_off j))).
+    Proof.
+      intros Hoff Hb'. unfold read. pose proof (read_at_spec blen bcap (j_off j) ltac:(lia) Hb') as Hs.
+      pose proof stored_size as Hsz.
+      destruct (j_off j >=? len data) eqn:Eo.
+      - rewrite Hs. rewrite Z.add_0_r, i64_small by lia. destruct j; reflexivity.
+      - rewrite Z.geb_leb in Eo. apply Z.leb_gt in Eo.
+        destruct Hs as (ws & Hr & Ht). rewrite Hr. rewrite i64_small by lia. exists ws. split; [reflexivity | exact Ht].
+    Qed.
+
+    (** ** Seek: the true (unbounded) requested position *)
+    Definition requested (offset whence : Z) : Z :=
+      if whence =? 0 then offset else if whence =? 1 then j_off j + offset else len data - offset.
+
+    Lemma seek_spec offset whence : 0 <= j_off j <= len data -> - 2 ^ 63 <= offset < 2 ^ 63 ->
+      let '(j', (p, e)) := seek j offset whence in
+      (e <> SNil /\ j' = j /\ p = 0)
+      \/ (e = SNil /\ 0 <= whence <= 2 /\ p = requested offset whence /\ 0 <= p <= len data
+          /\ j' = mkJ (j_span j) (j_root j) p).
+    Proof.
+      intros Hoff Hofs. pose proof stored_size as Hsz. unfold seek, requested. rewrite <- Hsz.
+      destruct (whence =? 0) eqn:E0.
+      { apply Z.eqb_eq in E0. subst whence.
+        destruct (offset <? 0) eqn:E1; [left; repeat split; discriminate|].
+        destruct (offset >? j_span j) eqn:E2; [left; repeat split; discriminate|].
+        apply Z.ltb_ge in E1. rewrite Z.gtb_ltb in E2. apply Z.ltb_ge in E2.
+        right. repeat split; try lia. }
+      destruct (whence =? 1) eqn:E1w.
+      { apply Z.eqb_eq in E1w. subst whence.
+        destruct (Z.lt_ge_cases (offset + j_off j) (2 ^ 63)) as [Hs|Hs].
+        - rewrite i64_small by lia.
+          destruct (offset + j_off j <? 0) eqn:E1; [left; repeat split; discriminate|].
+          destruct (offset + j_off j >? j_span j) eqn:E2; [left; repeat split; discriminate|].
+          apply Z.ltb_ge in E1. rewrite Z.gtb_ltb in E2. apply Z.ltb_ge in E2.
+          right. repeat split; try lia.
+        - assert (Hw : i64 (offset + j_off j) = offset + j_off j - 2 ^ 64).
+          { unfold i64.
+            replace ((-9223372036854775808 <=? offset + j_off j) && (offset + j_off j <? 9223372036854775808)) with false
+              by (symmetry; apply andb_false_iff; right; apply Z.ltb_ge; lia).
+            lia. }
+          rewrite Hw.
+          replace (offset + j_off j - 2 ^ 64 <? 0) with true by (symmetry; apply Z.ltb_lt; lia).
+          left. repeat split; discriminate. }
+      destruct (whence =? 2) eqn:E2w.
+      { apply Z.eqb_eq in E2w. subst whence.
+        destruct (Z.lt_ge_cases (j_span j - offset) (2 ^ 63)) as [Hs|Hs].
+        - rewrite i64_small by lia.
+          destruct (j_span j - offset <? 0) eqn:E1; [left; repeat split; discriminate|].
+          rewrite E1.
+          destruct (j_span j - offset >? j_span j) eqn:E2; [left; repeat split; discriminate|].
+          apply Z.ltb_ge in E1. rewrite Z.gtb_ltb in E2. apply Z.ltb_ge in E2.
+          right. repeat split; try lia.
+        - assert (Hw : i64 (j_span j - offset) = j_span j - offset - 2 ^ 64).
+          { unfold i64.
+            replace ((-9223372036854775808 <=? j_span j - offset) && (j_span j - offset <? 9223372036854775808)) with false
+              by (symmetry; apply andb_false_iff; right; apply Z.ltb_ge; lia).
+            lia. }
+          rewrite Hw.
+          replace (j_span j - offset - 2 ^ 64 <? 0) with true by (symmetry; apply Z.ltb_lt; lia).
+          left. repeat split; discriminate. }
+      left. repeat split; discriminate.
+    Qed.
+  End Stored.
+
+  (** ** sequences of Read calls neither skip nor repeat *)
+  Fixpoint reads (j : joiner) (bufs : list (Z * Z)) : joiner * list (Z * list (Z * bytes) * rerr) :=
+    match bufs with
+    | [] => (j, [])
+    | (blen, bcap) :: rest =>
+        let '(j1, r) := read get cs refLen j blen bcap in
+        let '(j2, rs) := reads j1 rest in (j2, r :: rs)
+    end.
+
+  Definition res_content (r : Z * list (Z * bytes) * rerr) : bytes := content (snd (fst r)).
+  Definition res_ok (r : Z * list (Z * bytes) * rerr) : Prop :=
+    fst (fst r) = len (res_content r) /\ (snd r = RNil \/ (snd r = REOF /\ fst (fst r) = 0)).
+
+  Lemma reads_spec data m : forall bufs j,
+    Repr m (j_span j) (j_root j) data -> j_span j < 2 ^ 63 -> 0 <= j_off j <= len data ->
+    Forall (fun bc => 0 <= fst bc <= snd bc) bufs ->
+    let '(j', rs) := reads j bufs in
+    j_span j' = j_span j /\ j_root j' = j_root j
+    /\ j_off j <= j_off j' <= len data
+    /\ concat (map res_content rs) = slice data (j_off j) (j_off j' - j_off j)
+    /\ Forall res_ok rs.
+  Proof.
+    induction bufs as [|[blen bcap] bufs IH]; intros j Hrep H63 Hoff Hbufs.
+    - cbn [reads map concat]. rewrite Z.sub_diag. repeat split; try lia; constructor.
+    - inversion Hbufs as [|? ? Hb1 Hbs]; subst. cbn [fst snd] in Hb1. cbn [reads].
+      pose proof (read_spec j data m Hrep H63 blen bcap Hoff Hb1) as Hr.
+      destruct (j_off j >=? len data) eqn:Eo.
+      + rewrite Hr. specialize (IH j Hrep H63 Hoff Hbs). destruct (reads j bufs) as [j2 rs].
+        destruct IH as (H1 & H2 & H3 & H4 & H5). repeat split; try assumption; try lia.
+        all: lazymatch goal with
+             | |- Forall _ _ => constructor; [|exact H5]; unfold res_ok, res_content; cbn; split; [reflexivity|]; right; now split
+             | |- _ => cbn [map concat]; unfold res_content at 1; cbn; exact H4
+             end.
+      + rewrite Z.geb_leb in Eo. apply Z.leb_gt in Eo.
+        destruct Hr as (ws & Hr & Ht). rewrite Hr.
+        set (n := Z.min blen (len data - j_off j)) in *.
+        set (j1 := mkJ (j_span j) (j_root j) (j_off j + n)).
+        assert (Hn : 0 <= n <= len data - j_off j) by (unfold n; lia).
+        specialize (IH j1 Hrep H63 ltac:(cbn; lia) Hbs). destruct (reads j1 bufs) as [j2 rs].
+        cbn [j_span j_root j_off j1] in IH. destruct IH as (H1 & H2 & H3 & H4 & H5).
+        pose proof (tiles_content ws 0 _ Ht) as Hc.
+        repeat split; try assumption; try lia.
+        all: lazymatch goal with
+             | |- Forall _ _ => constructor; [|exact H5]; unfold res_ok, res_content; cbn [fst snd]; rewrite Hc;
+                                split; [|now left]; symmetry; apply slice_length; lia
+             | |- _ => cbn [map concat]; unfold res_content at 1; cbn [fst snd]; rewrite Hc, H4;
+                       rewrite slice_slice_app by lia; f_equal; lia
+             end.
   Qed.
 End JoinerProofs.
